@@ -548,7 +548,7 @@ def wl_cuckoo(ctx, rng, case):
     cfg = ck.gen_cfg(rng, small=rng.random() < 0.7, allow_rate=False)
     large = case.index % 40 == 7  # a few default-sized and bigger tables: block / buffer sizes that tiny tables never reach
     if large:
-        cfg.capacity, cfg.bucket_size, cfg.finger_size, cfg.max_swaps = rng.choice([10000, 16500, 33000]), rng.choice([2, 4]), 4, 50
+        cfg.capacity, cfg.bucket_size, cfg.finger_size, cfg.max_swaps = rng.choice([10000, 16500, 33000, 70000, 140000]), rng.choice([2, 4]), 4, 50  # up to 2 MiB of slots
         ctx.count("large_cuckoo_tables")
     crowded = not large and case.index % 5 == 2
     if crowded:
